@@ -34,7 +34,8 @@ def menus(tier):
     lst_len = [(n,) for n in (0, 1, 2, 3)] + [(n, E) for n in (0, 1, 2)] + [(E, n) for n in (1, 2, 3)] \
         + [(1, 2), (1, 3), ((1, 2),), (E, ())]
     return {
-        "int": {"refs": {"min": [(0,), (7,), (-1,), (8,), ((1, 2),)], "max": [(0,), (7,), (-1,), (8,), ((),)]},
+        "int": {"refs": {"min": [(0,), (7,), (-1,), (8,), ((1, 2),), (10 ** 400,)],
+                         "max": [(0,), (7,), (-1,), (8,), ((),), (-10 ** 400,)]},
                 "values": [None, 0, 7] + ([True] if T else [])},
         # 1.49 / 1.51 differ from the value 1.5 only beyond precision 1; 1.46 rounds to 1.5
         # FRESH_NAN becomes a new float('nan') object every time it is applied
@@ -46,7 +47,8 @@ def menus(tier):
         # whichever of the two forms comes first
         "str": {"refs": {"len": str_len, "len2": [(0,), (2,), (0, E), (E, 0), (E, 3)],
                          "alphabet": [("",), ("a",), ("ab",)],
-                         "contains": [("",), ("a",), ("ab",), ("c",)],
+                         # "ba": every letter is in the alphabet "ab", the string is not a slice of it
+                         "contains": [("",), ("a",), ("ab",), ("c",), ("ba",)],
                          "regex": [("a",), ("[ab]+",), ("^a.$",), ("a{2}",), ("*",),
                                    ("a{99999999999999999999}",)]},
                 "values": [None, "", "a", "ab", "abc", "{id}"]},
